@@ -545,9 +545,41 @@ fn analyzer_routes(r: &mut Report) {
     }
 }
 
+/// Counts: databases with 255 .. 257 and 65535 .. 65537 labels (one signature each) and one label with that many
+/// signatures; the last entry is the exact one, the first an approximate one, the rest cannot accept the observation.
+/// A position that does not fit the integer type it is kept in shows here and nowhere else.
+fn large_databases(r: &mut Report) {
+    let sig = |ittl: u8, ol: Vec<TcpOption>| tcp::Signature { version: IpVersion::V4, ittl: Ttl::Value(ittl), olen: 0, mss: None, wsize: WindowSize::Any, wscale: None, olayout: ol, quirks: vec![Quirk::Df], pclass: PayloadSize::Zero };
+    let obs = TcpObservation { version: IpVersion::V4, ittl: Ttl::Distance(57, 7), olen: 0, mss: Some(1460), wsize: WindowSize::Value(8192), wscale: Some(7), olayout: vec![TcpOption::Mss], quirks: vec![Quirk::Df], pclass: PayloadSize::Zero };
+    for n in [255usize, 256, 257, 65535, 65536, 65537] {
+        for exact_at in [n - 1, n - 2] {
+            let sigs: Vec<tcp::Signature> = (0..n)
+                .map(|i| {
+                    if i == exact_at {
+                        sig(64, vec![TcpOption::Mss])
+                    } else if i == 0 {
+                        sig(128, vec![TcpOption::Mss])
+                    } else {
+                        sig(64, vec![TcpOption::Mss, TcpOption::Nop, TcpOption::Unknown((i % 200) as u8 + 20)])
+                    }
+                })
+                .collect();
+            // (a) one label per signature
+            let entries: Vec<(Label, Vec<tcp::Signature>)> = sigs.iter().enumerate().map(|(i, s)| (label(i), vec![s.clone()])).collect();
+            let coll = FingerprintCollection::new(entries);
+            check_lookup(r, &coll, &obs, "tcp:large", &|| json!({"kind": "large-database", "labels": n, "signatures_per_label": 1, "exact_entry": exact_at}));
+            // (b) one label with all signatures, after two small labels
+            let entries: Vec<(Label, Vec<tcp::Signature>)> = vec![(label(0), vec![]), (label(1), vec![sig(255, vec![TcpOption::Nop])]), (label(2), sigs)];
+            let coll = FingerprintCollection::new(entries);
+            check_lookup(r, &coll, &obs, "tcp:large", &|| json!({"kind": "large-database", "labels": 3, "signatures_in_last_label": n, "exact_entry": exact_at}));
+        }
+    }
+}
+
 pub fn run(thorough: bool) -> Outcome {
     let mut r = Report::new();
     bundled(&mut r);
+    large_databases(&mut r);
     analyzer_routes(&mut r);
     let _ = thorough;
     let max_sigs = 3;
@@ -556,7 +588,7 @@ pub fn run(thorough: bool) -> Outcome {
     generated_near_keys(&mut r);
     Outcome {
         report: r,
-        rule: "lookups compared with a full scan: bundled database x observations derived from every bundled signature with each field perturbed (TCP: both tables; HTTP: 4 versions x header-list variants x software strings); every generated database of <= N signatures (72 TCP / 18 HTTP signature alphabet, every split into labels) x every observation of the concrete alphabets (48 TCP / 48 HTTP); analyzer routes: 4 exchanges (SYN, SYN+ACK, request, response; three after bundled signatures, one unknown to the database) through the TCP and HTTP analyzers and the unified analyzer under all 8 protocol-switch combinations with matching on: the same (label, quality) everywhere; distinct = distinct (table, scan result) outcomes".into(),
+        rule: "lookups compared with a full scan: bundled database x observations derived from every bundled signature with each field perturbed (TCP: both tables; HTTP: 4 versions x header-list variants x software strings); every generated database of <= N signatures (72 TCP / 18 HTTP signature alphabet, every split into labels) x every observation of the concrete alphabets (48 TCP / 48 HTTP); large databases: 255..257 and 65535..65537 labels of one signature, and one label with that many signatures, the exact entry last or last but one; analyzer routes: 4 exchanges (SYN, SYN+ACK, request, response; three after bundled signatures, one unknown to the database) through the TCP and HTTP analyzers and the unified analyzer under all 8 protocol-switch combinations with matching on: the same (label, quality) everywhere; distinct = distinct (table, scan result) outcomes".into(),
         exhaustive: true,
         bounds: json!({"max_signatures_per_generated_tcp_database": max_sigs, "max_signatures_per_generated_http_database": 3, "tcp_sig_alphabet": 72, "http_sig_alphabet": 18, "wide_tcp_sig_alphabet_for_2_signature_databases": tcp_sig_alphabet_wide().len(), "wide_http_sig_alphabet": http_sig_alphabet_wide().len()}),
     }
